@@ -2236,10 +2236,26 @@ fn sys_phase2(out: &mut Out, w: &SysWorld, cold: &[(u64, Vec<(String, String)>)]
         out.op(&format!("sys {}", SYS_MAP_LINE), "ok");
         let mut kinds: HashSet<String> = HashSet::new();
         let mut n_over = 0;
+        // the generator consumes its random stream depending on the answers (a `chk` follows a
+        // successful `res`): after the first differing answer the two phases are different histories
+        let mut desync = false;
+        let mut reported = false;
         for (i, (l, a)) in warm_lines.iter().enumerate() {
             out.op(l, a);
-            let (cl, ca) = &cold_lines[i];
-            assert_eq!(cl, l, "the generator is deterministic");
+            if desync {
+                continue;
+            }
+            let (cl, ca) = match cold_lines.get(i) {
+                Some((cl, ca)) if cl == l => (cl, ca),
+                _ => {
+                    desync = true;
+                    if !reported {
+                        out.oracle_fail("system-cell-cache-changes-answer", &format!("seed {}: the histories of the two phases diverge at line {} (`{}`)", seed, i, short(l)));
+                    }
+                    continue;
+                }
+            };
+            let _ = cl;
             if l.starts_with("res") || l == "chk" {
                 out.evaluations += 1;
                 let class = a.split(' ').take(2).collect::<Vec<_>>().join(" ");
@@ -2252,6 +2268,7 @@ fn sys_phase2(out: &mut Out, w: &SysWorld, cold: &[(u64, Vec<(String, String)>)]
                 // error may name another cell; the verdict class is what must agree
                 let same = if l == "chk" { ca.split(' ').next() == a.split(' ').next() } else { ca == a };
                 if !same {
+                    reported = true;
                     out.oracle_fail("system-cell-cache-changes-answer", &format!("seed {} `{}`: without SYSTEM_CELL `{}`, with SYSTEM_CELL `{}`", seed, short(l), ca, a));
                 }
             }
